@@ -12,7 +12,7 @@ func init() { checks["C15"] = checkC15 }
 
 func checkC15(c *Ctx) {
 	r := c.Rng
-	c.Ev.Coverage.Rule = "histories of 2..30 calls sharing one reused ParsedJson (kept across failures: the object handed in is reused again after a failed call), one Serializer switching modes and one Deserialize destination: Parse/ParseND of valid documents, stage-1 failures (unterminated string, control character, no closing bracket) and stage-2 failures, below and above the 8 KiB threshold (also failing in a late index buffer), both string modes, in-place edits of the returned object in between; every call's outcome and canonical document are compared with the same call on fresh objects; the index channel of the reused state must be empty after every call. non-trivial = history with at least one failure followed by a success on the reused object; distinct = by call sequence"
+	c.Ev.Coverage.Rule = "histories of 2..30 calls sharing one reused ParsedJson (kept across failures: the object handed in is reused again after a failed call), one Serializer switching modes and one Deserialize destination: Parse/ParseND of valid documents, stage-1 failures (unterminated string, control character, no closing bracket) and stage-2 failures, below and above the 8 KiB threshold (also failing in a late index buffer, and at the very start of a dense <= 8 KiB document with several index buffers queued); half of the histories use by-value handles, both string modes, in-place edits of the returned object in between; every call's outcome and canonical document are compared with the same call on fresh objects; the index channel of the reused state must be empty after every call. non-trivial = history with at least one failure followed by a success on the reused object; distinct = by call sequence"
 	mkDoc := func() (doc []byte, nd bool, kind string) {
 		size := r.Intn(4)
 		var base string
@@ -24,7 +24,11 @@ func checkC15(c *Ctx) {
 		default:
 			base = string(bigDoc(r, 16+r.Intn(6), 0))
 		}
-		switch r.Intn(8) {
+		switch r.Intn(9) {
+		case 8: // stage-2 failure at the very start of a dense document that stays on the
+			// synchronous path (<= 8 KiB): stage 1 has queued several index buffers by then
+			n := 1000 + r.Intn(1600)
+			return []byte("[tru" + strings.Repeat(",[]", n) + "]"), false, "stage2-early-dense-sync"
 		case 0: // stage-2 failure early
 			return []byte("[1,," + base + "]"), false, "stage2-early"
 		case 1: // stage-2 failure late
@@ -72,7 +76,7 @@ func checkC15(c *Ctx) {
 				cp = true
 				calls[len(calls)-1] += "[no-option]"
 			}
-			ok := withDeadline(30*time.Second, func() {
+			ok := withDeadline(120*time.Second, func() {
 				if noOpt {
 					got = implParseDefault(doc, nd, reuse)
 				} else {
@@ -81,7 +85,7 @@ func checkC15(c *Ctx) {
 			})
 			info := map[string]interface{}{"history": strings.Join(calls, " ; "), "doc_hex": fmt.Sprintf("%x", trunc(string(doc), 2000)), "doc_len": len(doc)}
 			if !ok {
-				c.Violate("hang", "Parse with a reused object did not return within 30 s", "reuse-hang", info)
+				c.Violate("hang", "Parse with a reused object did not return within 120 s", "reuse-hang", info)
 				return
 			}
 			want = implParse(doc, nd, cp, nil)
